@@ -318,6 +318,12 @@ func OracleTuples(tr *Trace) []Finding {
 			}
 		}
 	}
+	if tr.Spec.Backend == "file" {
+		// the file back end writes the whole dump: also entries of vBuckets that were not flagged
+		for _, w := range fileStateWrites(tr) {
+			check("stored", w.VB, w.Tup, w.T)
+		}
+	}
 	for vb, segs := range tr.Segs {
 		for _, sg := range segs {
 			if !sg.Rollback {
